@@ -537,7 +537,9 @@ enum Mode {
 }
 
 fn execute(sc: &Scenario, mode: Mode, path: &std::path::Path, st: &mut St) -> Result<Outcome, String> {
+    crate::report::progress();
     let db = prepare(sc, path)?;
+    crate::report::progress();
     let g = sched::global();
     let mut logs: Vec<Log> = Vec::new();
     let mut workers: Vec<Box<dyn FnOnce(Arc<Inner>) + Send>> = Vec::new();
@@ -609,6 +611,7 @@ fn execute(sc: &Scenario, mode: Mode, path: &std::path::Path, st: &mut St) -> Re
             match sched::run_free(job, seed, max_sleep_us, 30_000) {
                 Ok(true) => {}
                 Ok(false) => t.inconclusive = Some("free-running stress: watchdog fired".into()),
+                Err(d) if d.starts_with("spin:") => t.spin = Some(d),
                 Err(d) => t.deadlock = Some(d),
             }
             t
@@ -1078,7 +1081,7 @@ fn handle(ctx: &Ctx, shard: &mut Shard, st: &mut St, sc: &Scenario, out: &Outcom
         r["schedule_readable"] = serde_json::json!(sched_txt);
         shard.violation(ctx, sig, &format!("[{} r={} w={} commits={} grow_at={} via {}] {}", sc.property, sc.readers, sc.writers.max(1), sc.commits, sc.grow_at, how, detail), &r);
     }
-    if out.trace.spin.is_some() {
+    if out.trace.spin.is_some() || out.trace.runaway {
         // the spinning thread cannot be stopped and would compete with everything that follows (and its
         // database handle stays alive): this worker process reports what it has and ends here
         shard.count("executions", st.executions);
